@@ -34,7 +34,7 @@ CHECKS = {
                 'PenaltyOnlyOnForbiddenSide for all 6^4 and 6^5 flag vectors: ignored bands are irrelevant, limits never enter the LSQ, zero confidence == unused, '
                 'certain limits give Big(n) chi^2, flag 4 == flag 1.  Replay: each sampled behaviour is run on the real fitter as is, with each junk token '
                 '(-999, 0, 1e-30, 1e30) in the ignored bands, with flags 0<->9 swapped, and with flags 1<->4 swapped (documented transform); all variants must agree with each other '
-                'and with the spec rows.',
+                'and with the spec rows.  Representation twins: the same photometry handed over as float arrays, integer arrays and lists must give the same fit.',
         'ref': 'DESIGN.md section 6 C03',
         'note': _NOTE + ' A limit met exactly by the best fit (spec boundary flag) admits either chi^2.',
         'technique': 'TLA+ spec + TLC relational invariants over all flag vectors; spec->code replay with metamorphic variants; trace validation',
